@@ -81,6 +81,15 @@ import (
 //     reads, creations, removals and renames are refused at various depths,
 //     by the base's own permission checks. userStrings / userPairs name it.
 //
+// What the base does with the VALUES it returns is an input too: MemFS, OrefaFS
+// and RoFS build a fresh error for every failing call, which hides a wrapper
+// that translates the error it received in place. The variant kept-errors
+// (MemFS; kept.go) stands on a FailFS whose failure function refuses the names
+// of keptLocked with error values it keeps and returns again; a call that
+// received one is made twice in the step, and the kept values must be
+// unchanged. Explored like the spellings of the base path, without the
+// operations on Sub views.
+//
 // The NAME of the base directory is data too. The wrapper splices the base
 // path into strings that other code INTERPRETS - a glob pattern handed to the
 // base file system, a prefix test, a substitution, a split at separators -,
